@@ -589,3 +589,117 @@ def assign_fast_paths(facts):
                 acc |= _handled_fields(s)
         out.append(ob("special.fast-path", base + ":paths", fn["pat"], "discharged", "%d early-returning branch(es) besides the self test, each complete" % nfast if nfast else "single path (no early return besides an optional self-assignment test)", fn["qname"]))
     return out
+
+
+OCCUPANCY_ARRAYS = [
+    # record, field, reason: every element is read before it is necessarily written (slot state / key / bit), so fresh memory
+    # must be initialised over its whole extent
+    ("datasketches::reverse_purge_hash_map", "states_", "slot occupancy: probing reads the state of slots that were never filled"),
+    ("datasketches::theta_update_sketch_base", "entries_", "key 0 marks an empty slot: find() reads the key of every probed slot"),
+    ("datasketches::bloom_filter_alloc", "bit_array_", "every bit is meaningful from the start"),
+]
+
+
+def full_init(facts):
+    """arrays whose every element is meaningful from allocation on (occupancy states, hash-table keys, bits): each function that
+    gives the field fresh memory must initialise its whole extent - a std::fill / fill_n / copy / copy_n / memset / memcpy with
+    the field as destination over the allocated size, or a counted loop 0..size with no break that writes element i on every
+    path - in the same block, after the allocation."""
+    from astu import functions_by, stmts_of, is_this_field, txt, local_decls, field_name
+    fns = functions_by(facts)
+    out = []
+    want = {(r, f): why for r, f, why in OCCUPANCY_ARRAYS}
+    seen_fields = set()
+
+    def blocks(n, acc):
+        if isinstance(n, dict):
+            if n.get("k") == "Block":
+                acc.append(n)
+            for v in n.values():
+                blocks(v, acc)
+        elif isinstance(n, list):
+            for v in n:
+                blocks(v, acc)
+        return acc
+    for pat, fn in sorted(fns.items()):
+        rect = fn.get("rect")
+        fields = [f for (r, f) in want if r == rect]
+        if not fields or fn.get("body") is None:
+            continue
+        inl = {d: v["init"] for d, v in local_decls(fn).items() if v.get("init") is not None and v.get("const")}
+        idx = 0
+        for b in blocks(fn["body"], []):
+            st = stmts_of(b)
+            for i, s in enumerate(st):
+                if s.get("k") != "Expr":
+                    continue
+                e = strip(s["e"])
+                if not (e.get("k") == "Assign" and e.get("op") == "=" and is_this_field(e["l"], fields)):
+                    continue
+                al = []
+                walk(e["r"], lambda x: al.append(x) if x.get("k") == "Call" and x.get("cname") == "allocate" else None)
+                if not al:
+                    continue
+                fld = field_name(e["l"])
+                seen_fields.add((rect, fld))
+                size = txt(al[0]["args"][0], inl).replace(" ", "") if al[0].get("args") else "?"
+                key = "%s::%s%s:%s-fully-initialised#%d" % (short(rect), fn["name"], "(%s)" % fn["special"] if fn.get("special") else "", fld, idx)
+                idx += 1
+                ok, how = False, ""
+                for nxt in st[i + 1:]:
+                    if nxt.get("k") == "Expr":
+                        c = strip_all(nxt["e"])
+                        if c.get("k") == "Call" and c.get("cname") in ("fill", "fill_n", "copy", "copy_n", "memset", "memcpy", "uninitialized_fill_n"):
+                            a = c.get("args", [])
+                            dest = a[2] if c["cname"] in ("copy", "copy_n") and len(a) == 3 else (a[0] if a else None)
+                            if dest is not None and is_this_field(strip_all(dest), (fld,)):
+                                ext = " ".join(txt(x, inl).replace(" ", "") for x in a)
+                                if size in ext:
+                                    ok, how = True, "%s over %s" % (c["cname"], size)
+                                    break
+                    if nxt.get("k") == "For":
+                        cnd = txt(nxt.get("c"), inl).replace(" ", "") if nxt.get("c") else ""
+                        jumps = []
+                        walk(nxt.get("b"), lambda x: jumps.append(x["k"]) if x.get("k") in ("Break", "Return", "Continue", "Goto") else None)
+                        if not cnd.endswith("<%s)" % size):
+                            continue
+
+                        def writes(n):
+                            """does every path through statement n write fld[i]?"""
+                            if n is None:
+                                return False
+                            if n.get("k") == "Block":
+                                return any(writes(x) for x in stmts_of(n))
+                            if n.get("k") == "If":
+                                return n.get("e") is not None and writes(n["t"]) and writes(n["e"])
+                            if n.get("k") == "Expr":
+                                hit = [False]
+
+                                def v(x):
+                                    if x.get("k") == "Assign":
+                                        l = []
+                                        walk(x["l"], lambda y: l.append(y) if is_this_field(y, (fld,)) else None)
+                                        if l:
+                                            hit[0] = True
+                                    if x.get("k") == "New" and x.get("placement") is not None:
+                                        l = []
+                                        walk(x["placement"], lambda y: l.append(y) if is_this_field(y, (fld,)) else None)
+                                        if l:
+                                            hit[0] = True
+                                walk(n, v)
+                                return hit[0]
+                            return False
+                        if writes(nxt.get("b")):
+                            if jumps:
+                                how = "the loop over 0..%s that writes %s[i] can leave early (%s): elements after the exit stay uninitialised" % (size, fld, "/".join(sorted(set(jumps))))
+                            else:
+                                ok, how = True, "counted loop 0..%s writes %s[i] on every path" % (size, fld)
+                                break
+                if ok:
+                    out.append(ob("lifecycle.full-init", key, s["loc"], "discharged", how, fn["qname"]))
+                else:
+                    out.append(ob("lifecycle.full-init", key, s["loc"], "violated", "%s receives fresh memory of %s elements but is not initialised over its whole extent afterwards (%s): %s" % (fld, size, how or "no fill/copy over the full size and no complete counted loop", want[(rect, fld)]), fn["qname"]))
+    for (r, f) in want:
+        if (r, f) not in seen_fields:
+            out.append(ob("lifecycle.full-init", "%s:%s:anchor" % (short(r), f), r, "unrecognised", "no allocation of this field found", ""))
+    return out
